@@ -17,6 +17,9 @@
 //!   aux        [] | [{width, rands, src:[main column per aux column]}]: running products
 //!              aux_next[m] = aux[m] * (main[src[m]] + r[m % rands]), aux[m][0] = 1
 //!   meta       trace metadata bytes
+//!   extra      [column indexes]: the constraint of each listed column is duplicated ahead of the
+//!              per-column constraints (constraint list = extras, then one per column)
+//! The auxiliary factor also adds the first periodic column's value when the AIR has periodic columns.
 use std::{marker::PhantomData, sync::Arc};
 
 use serde::Deserialize;
@@ -74,6 +77,9 @@ pub struct AirDesc {
     pub aux: Vec<AuxDesc>,
     #[serde(default)]
     pub meta: Vec<u8>,
+    /// columns whose transition constraint is stated once more AHEAD of the per-column constraints
+    #[serde(default)]
+    pub extra: Vec<usize>,
 }
 
 impl AirDesc {
@@ -214,7 +220,8 @@ impl<B: StarkField + ExtensibleField<2> + ExtensibleField<3>> Air for GenAir<B> 
 
     fn new(trace_info: TraceInfo, pub_inputs: GenPub<B>, options: ProofOptions) -> Self {
         let desc = pub_inputs.desc.clone();
-        let degrees: Vec<_> = (0..desc.width).map(|j| desc.degree(j)).collect();
+        let degrees: Vec<_> =
+            desc.extra.iter().copied().chain(0..desc.width).map(|j| desc.degree(j)).collect();
         let num_assertions = desc.asserts.len();
         let context = match desc.aux.first() {
             None => AirContext::new(trace_info, degrees, num_assertions, options),
@@ -239,8 +246,8 @@ impl<B: StarkField + ExtensibleField<2> + ExtensibleField<3>> Air for GenAir<B> 
     ) {
         let cur = frame.current();
         let nxt = frame.next();
-        for j in 0..self.desc.width {
-            result[j] = nxt[j] - self.desc.next_value(j, cur, periodic_values);
+        for (k, j) in self.desc.extra.iter().copied().chain(0..self.desc.width).enumerate() {
+            result[k] = nxt[j] - self.desc.next_value(j, cur, periodic_values);
         }
     }
 
@@ -274,7 +281,7 @@ impl<B: StarkField + ExtensibleField<2> + ExtensibleField<3>> Air for GenAir<B> 
         &self,
         main_frame: &EvaluationFrame<F>,
         aux_frame: &EvaluationFrame<E>,
-        _periodic_values: &[F],
+        periodic_values: &[F],
         aux_rand_elements: &AuxRandElements<E>,
         result: &mut [E],
     ) where
@@ -283,9 +290,11 @@ impl<B: StarkField + ExtensibleField<2> + ExtensibleField<3>> Air for GenAir<B> 
     {
         let a = self.desc.aux.first().expect("aux description");
         let r = aux_rand_elements.rand_elements();
+        // the first periodic column (if any) enters the running-product factor
+        let per: E = periodic_values.first().map(|p| (*p).into()).unwrap_or(E::ZERO);
         for m in 0..a.width {
             let f: E = main_frame.current()[a.src[m]].into();
-            result[m] = aux_frame.next()[m] - aux_frame.current()[m] * (f + r[m % a.rands]);
+            result[m] = aux_frame.next()[m] - aux_frame.current()[m] * (f + r[m % a.rands] + per);
         }
     }
 
@@ -340,12 +349,14 @@ pub struct GenProver<B: StarkField, H: ElementHasher, R = DefaultRandomCoin<H>> 
     pub options: ProofOptions,
     /// optional perturbation of the aux trace: (column, row) gets +1 (used by the corruption engines)
     pub aux_corrupt: Option<(usize, usize)>,
+    /// optional scaling of a whole aux column by 2 (keeps every aux transition, breaks aux[col][0] = 1)
+    pub aux_scale: Option<usize>,
     _p: PhantomData<(B, H, R)>,
 }
 
 impl<B: StarkField, H: ElementHasher, R> GenProver<B, H, R> {
     pub fn new(options: ProofOptions) -> Self {
-        GenProver { options, aux_corrupt: None, _p: PhantomData }
+        GenProver { options, aux_corrupt: None, aux_scale: None, _p: PhantomData }
     }
 }
 
@@ -361,7 +372,11 @@ pub fn build_aux<B: StarkField, E: FieldElement<BaseField = B>>(
         cols[m][0] = E::ONE;
         for i in 1..n {
             let f: E = main.get(a.src[m], i - 1).into();
-            cols[m][i] = cols[m][i - 1] * (f + rands[m % a.rands]);
+            let per: E = match desc.periodic.first() {
+                Some(p) => E::from(B::from(p[(i - 1) % p.len()])),
+                None => E::ZERO,
+            };
+            cols[m][i] = cols[m][i - 1] * (f + rands[m % a.rands] + per);
         }
     }
     cols
@@ -437,6 +452,11 @@ where
         let mut cols = build_aux(&main_trace.desc, &main_trace.main, aux_rand_elements.rand_elements());
         if let Some((c, r)) = self.aux_corrupt {
             cols[c][r] += E::ONE;
+        }
+        if let Some(c) = self.aux_scale {
+            for v in cols[c].iter_mut() {
+                *v = v.double();
+            }
         }
         ColMatrix::new(cols)
     }
